@@ -160,7 +160,8 @@ func genSentinel(seed uint64, tier, variant string) any {
 	mode := pick(r, "primary", "primary", "split", "split", "split", "replica-only")
 	p.X["mode"] = mode
 	p.X["pred"] = pick(r, "readonly", "readonly", "mark", "mark", "all", "none")
-	calm := variant == "calm" || (variant == "" && r.IntN(6) == 0)
+	lifetime := variant == "lifetime"
+	calm := variant == "calm" || lifetime || (variant == "" && r.IntN(6) == 0)
 	p.X["calm"] = calm
 	p.Opt = OptSpec{
 		Queue: "ring", Multiplex: -1, Procs: 16,
@@ -176,6 +177,51 @@ func genSentinel(seed uint64, tier, variant string) any {
 	nt := 2 + r.IntN(4)
 	for ti := 0; ti < nt; ti++ {
 		p.Tasks = append(p.Tasks, genRouteCalls(r, ti, 2+r.IntN(6), !p.Opt.DisableCache, false))
+	}
+	if lifetime {
+		// variant lifetime: a deployment in which nothing changes, connections that expire (ConnLifetime) while calls are
+		// in flight, and batches whose recovery after the expiry is judged: plain batches, MULTI ... EXEC blocks followed
+		// by further writes, and blocks whose EXEC is refused because a member was rejected when it was queued
+		p.X["lifetime"] = true
+		p.Opt.ConnLifetimeMs = pick(r, 60, 150, 400, 1000)
+		p.Opt.AlwaysPipelining = r.IntN(4) != 0
+		p.Sched.TickWeight = pick(r, 0.05, 0.2, 0.6)
+		// a server that answers slowly around the end of a lifetime: the client closes an expired connection only after
+		// a grace period of one second, calls outstanding longer than that are cut off
+		for i, n := 0, 1+r.IntN(4); i < n; i++ {
+			p.Faults = append(p.Faults, FaultSpec{Kind: "slow", AtStep: r.IntN(200), NeedInflight: true, Pick: r.IntN(6), DurMs: pick(r, 1100, 1500, 2500)})
+		}
+		for ti := range p.Tasks {
+			for ci, n := len(p.Tasks[ti]), len(p.Tasks[ti])+1+r.IntN(3); ci < n; ci++ {
+				uid := func(k int) string { return fmt.Sprintf("t%d.c%d.k%d", ti, ci, k) }
+				wr := func(k int) CmdSpec {
+					return CmdSpec{Argv: []string{"VWTAG", "w" + strconv.Itoa(r.IntN(3)), uid(k)}, Keys: 1}
+				}
+				c := CallSpec{Kind: "multi"}
+				k := 0
+				if r.IntN(3) != 0 {
+					c.Cmds = append(c.Cmds, CmdSpec{Argv: []string{"MULTI"}})
+					for m := 1 + r.IntN(2); m > 0; m-- {
+						c.Cmds = append(c.Cmds, wr(k))
+						k++
+					}
+					if r.IntN(2) == 0 {
+						// refused when queued (wrong number of arguments): EXEC answers EXECABORT
+						c.Cmds = append(c.Cmds, CmdSpec{Argv: []string{"VWTAG", "onlykey"}})
+					}
+					c.Cmds = append(c.Cmds, CmdSpec{Argv: []string{"EXEC"}})
+				}
+				for m := 1 + r.IntN(3); m > 0; m-- {
+					if r.IntN(4) == 0 {
+						c.Cmds = append(c.Cmds, CmdSpec{Argv: []string{"VTAG", uid(k), "s"}, Flag: "ro"})
+					} else {
+						c.Cmds = append(c.Cmds, wr(k))
+					}
+					k++
+				}
+				p.Tasks[ti] = append(p.Tasks[ti], c)
+			}
+		}
 	}
 	// environment story: the model's current master index, the sentinels' views and what happens to them
 	cur := 0
@@ -846,6 +892,9 @@ func execSentinel(t *testing.T, plan any, out *Outcome) {
 
 	// workload and environment
 	sr.base = s.Step
+	for _, f := range p.Faults {
+		s.Faults = append(s.Faults, &sched.Fault{Kind: f.Kind, AtStep: sr.base + f.AtStep, NeedInflight: f.NeedInflight, Pick: f.Pick, Dur: time.Duration(f.DurMs) * time.Millisecond, Arg: f.Arg})
+	}
 	for ti, calls := range p.Tasks {
 		var cs []sched.Call
 		for _, c := range calls {
@@ -1081,7 +1130,12 @@ func (sr *sentRun) replicaPath(spec CallSpec) bool {
 
 func (sr *sentRun) judge() {
 	e, s, out, p := sr.e, sr.e.sim, sr.e.out, sr.p
-	judgeFrontEndRetries(e, "sentinel")
+	lifetime, _ := p.X["lifetime"].(bool)
+	if lifetime {
+		judgeLifetimeRecovery(e, "sentinel")
+	} else {
+		judgeFrontEndRetries(e, "sentinel")
+	}
 	// the predicate the client was given answered as the plan says (harness self-check)
 	if sr.mode == "split" {
 		want := map[string]bool{}
@@ -1300,6 +1354,11 @@ func (sr *sentRun) judge() {
 	}
 	// bounded liveness: after the announced switch and the quiet period, fresh primary traffic is on the new master
 	switch {
+	case lifetime:
+		// connections that expire make the client re-verify and re-dial on its own schedule: a ROLE check that meets an
+		// expired connection closes the installed master connection, and calls fail with ErrClosing until the next
+		// refresh has replaced it (seed 289 of the variant). There is no quiet period to judge liveness after.
+		out.notJudged("liveness:connections-expire")
 	case sr.probeTask == nil:
 		out.notJudged("liveness:client-did-not-settle")
 		out.probe("client-did-not-settle-after-heal")
